@@ -545,3 +545,160 @@ def lit_rule(ck, F):
             ck.ob(R, "%s::%s|prints-%s" % (enum, v, lit), bool(ok),
                   "%s::%s is printed as %r but the lexer maps %r to %s" % (enum, v, lit, lit[0] if lit else None, back), b.file, b.line,
                   sample={"operator": "%s::%s" % (enum, v), "literal": lit, "lexer": str(back)})
+
+
+# ------------------------------------------------------------------------------------------------ separators
+def sep_rule(ck, F):
+    _sep_rule(ck, F)
+
+
+TOKENTYPE = "ironcalc_base::expressions::token::TokenType"
+
+
+def _sep_locals(F, body, start, decimal_is_dot, names):
+    """Interpret `body` from `start` with `locale.numbers.symbols.decimal == "."` decided, and return the values
+    (code points) the locals called `names` end up with."""
+    from tabx import describe_operand
+
+    def hook(interp, t, argv, st, env):
+        q = body.callee_q(t) or ""
+        if q.rsplit("::", 1)[-1] in ("eq", "ne") and len(t["args"]) == 2:
+            ds = [describe_operand(body, a) for a in t["args"]]
+            if any(d[0] == "field" and d[2] == "decimal" for d in ds) and any(d[0] == "str" and d[1] == "." for d in ds):
+                return decimal_is_dot if q.endswith("eq") else (not decimal_is_dot)
+        return UNKNOWN
+
+    interp = Interp(body, F, max_paths=64, max_len=300, call_hook=hook)
+    paths = interp.run({}, start=start)
+    out = {}
+    for n in names:
+        ls = body.local_by_name(n)
+        vals = set()
+        for p in paths:
+            for l in ls:
+                v = p.env.get(l, UNKNOWN) if isinstance(p.env, dict) else UNKNOWN
+                if isinstance(v, int) and not isinstance(v, bool):
+                    vals.add(v)
+        out[n] = vals
+    return out
+
+
+def _lexer_char_tokens(F):
+    """{char: set(TokenType variants constructed in the arm the lexer dispatches that char to)}."""
+    from tabx import collect
+    from mir import dominated_by
+    nt = F.one("expressions::lexer::Lexer::next_token")
+    out = {}
+    for bi, blk in enumerate(nt.blocks):
+        t = blk["t"]
+        if t["k"] == "switch" and t["ty"] == "char":
+            for v, tb in t["targets"]:
+                region = sorted(dominated_by(nt, tb))[:60]
+                c = collect(nt, region)
+                out.setdefault(chr(int(v)), set()).update(var for a, var in c["variants"] if a == TOKENTYPE)
+    return out
+
+
+def _parser_sep_tokens(F):
+    """{helper name: {True (decimal is '.'): token, False: token}}"""
+    from tabx import chain_table, collect, straight_line
+    out = {}
+    for fn in ("get_argument_separator_token", "get_column_separator_token"):
+        b = F.one("parser::Parser::" + fn)
+        ch = chain_table(b)
+        d = {}
+        for q, ops, coll, ft, bi in ch:
+            if any(o[0] == "field" and o[2] == "decimal" for o in ops) and any(o[0] == "str" and o[1] == "." for o in ops):
+                tv = [v for a, v in (coll or {}).get("variants", []) if a == TOKENTYPE]
+                fv = [v for a, v in collect(b, straight_line(b, ft)).get("variants", []) if a == TOKENTYPE] if ft is not None else []
+                if len(tv) == 1:
+                    d[True] = tv[0]
+                if len(fv) == 1:
+                    d[False] = fv[0]
+        out[fn] = d
+    return out
+
+
+def _sep_rule(ck, F):
+    R = "SEP"
+    lex = _lexer_char_tokens(F)
+    par = _parser_sep_tokens(F)
+    ck.ob(R, "parser|separator-helpers", all(len(par[k]) == 2 for k in par), "could not read the parser's separator tokens: %s" % par)
+    # which helper the array grammar uses for rows / elements
+    pp = F.one("parser::Parser::parse_primary")
+    pr = F.one("parser::Parser::parse_array_row")
+    row_helper = "get_column_separator_token" if pp.calls_to("Parser::get_column_separator_token") else None
+    el_helper = "get_argument_separator_token" if pr.calls_to("Parser::get_argument_separator_token") else None
+    ck.ob(R, "parser|array-grammar-helpers", bool(row_helper and el_helper),
+          "array grammar does not use the separator helpers as expected (rows: %s, elements: %s)" % (row_helper, el_helper))
+    if not (row_helper and el_helper):
+        return
+    printers = [("stringify", F.one("stringify::stringify"), "format_function", "stringify::format_function"),
+                ("to_string_moved", F.one("move_formula::to_string_moved"), "move_function", "move_formula::move_function")]
+    for pname, pb, helper_name, helper_q in printers:
+        sw = [x for x in enum_switches(pb, NODE)]
+        top = max(sw, key=lambda x: len(x[1]))
+        entry = top[1].get("ArrayKind")
+        for dot in (True, False):
+            loc = "decimal '.'" if dot else "decimal ','"
+            vals = _sep_locals(F, pb, entry, dot, ["row_separator", "col_separator"])
+            # which local separates rows and which elements is read off the nesting: the push in the outer loop vs the inner loop;
+            # by construction of both printers `row_separator` is meant for rows: check what is actually pushed between rows below
+            for role, helper, local in (("array rows", row_helper, "row_separator"), ("array elements", el_helper, "col_separator")):
+                want = par[helper].get(dot)
+                got = vals.get(local, set())
+                toks = set()
+                for v in got:
+                    toks |= lex.get(chr(v), set())
+                ok = len(got) == 1 and want in toks
+                ck.ob(R, "%s|%s|%s" % (pname, role, loc), ok,
+                      "%s separates %s with %s in a locale with %s, which the lexer reads as %s, but the parser expects %s: the printed array does not parse back"
+                      % (pname, role, [chr(v) for v in got], loc, sorted(toks), want), pb.file, pb.line,
+                      sample={"printer": pname, "role": role, "locale": loc, "char": [chr(v) for v in got], "parser_expects": want})
+        # function arguments: the helper must choose the separator from the locale
+        hb = F.one(helper_q)
+        for dot in (True, False):
+            loc = "decimal '.'" if dot else "decimal ','"
+            names = [n for n in ("arg_separator", "arg_sep") if hb.local_by_name(n)]
+            vals = _sep_locals(F, hb, 0, dot, names) if names else {}
+            got = set()
+            for n in names:
+                got |= vals.get(n, set())
+            want = par["get_argument_separator_token"].get(dot)
+            toks = set()
+            for v in got:
+                toks |= lex.get(chr(v), set())
+            ok = len(got) == 1 and want in toks
+            ck.ob(R, "%s|function arguments|%s" % (pname, loc), ok,
+                  "%s (%s) separates function arguments with %s in a locale with %s; the parser expects %s there"
+                  % (pname, helper_name, [chr(v) for v in got] or "a hard-coded literal", loc, want), hb.file, hb.line,
+                  sample={"printer": pname, "role": "function arguments", "locale": loc, "char": [chr(v) for v in got], "parser_expects": want})
+    # array nesting: rows are separated by the row separator (pushed in the outer loop), elements by the element separator
+    for pname, pb, _, _ in printers:
+        sw = [x for x in enum_switches(pb, NODE)]
+        top = max(sw, key=lambda x: len(x[1]))
+        entry = top[1].get("ArrayKind")
+        region = arm_region(pb, top[0], entry)
+        pushes = []
+        for bi in sorted(region):
+            t = pb.term(bi)
+            if t["k"] == "call" and (pb.callee_q(t) or "").endswith("String::push") and len(t["args"]) == 2:
+                tgt = pb.ref_target(t["args"][0])
+                tn = pb.local_name(tgt["l"]) if tgt is not None and not place_proj(tgt) else None
+                r = pb.trace(t["args"][1])
+                src = None
+                if r["kind"] == "place":
+                    src = pb.local_name(pb.resolve_place(r["place"])["l"])
+                elif r["kind"] == "const":
+                    src = "const " + str(r["const"].get("v", r["const"].get("d")))
+                else:
+                    p0 = op_place(t["args"][1])
+                    src = pb.local_name(p0["l"]) if p0 is not None else None
+                pushes.append((tn, src))
+        rows_ok = ("matrix_string", "row_separator") in pushes
+        els_ok = ("row_string", "col_separator") in pushes
+        extra = [p for p in pushes if p[1] and p[1].startswith("const")]
+        ck.ob(R, "%s|array nesting" % pname, rows_ok and els_ok and not extra,
+              "%s builds arrays with pushes %s: rows must be joined with row_separator, elements with col_separator and no extra braces "
+              "(the parser reads {a,b;c,d}, not {{a;b},{c;d}})" % (pname, pushes), pb.file, pb.line,
+              sample={"printer": pname, "pushes": [list(map(str, p)) for p in pushes]})
